@@ -41,7 +41,14 @@ def outcome(g, text, kind="molecule", seeds=(1, 2, 3)):
     except Timeout:
         return ("timeout",)
     except Exception as exc:
-        return ("parse-raises", type(exc).__name__)
+        # a rejection must not depend on the text having been seen before: the same text is parsed once more in this process
+        try:
+            obj = bounded(parse)
+        except Exception:
+            return ("parse-raises", type(exc).__name__)
+        if kind == "token":
+            return ("parsed", ["accepted on the SECOND parse of the same text"] + [(b.descriptor, b.atom_bonding_to) for b in obj.bond_descriptors])
+        return ("molecule", "accepted on the SECOND parse of the same text: " + str(obj), None)
     if kind == "token":
         return ("parsed", [(b.descriptor, b.atom_bonding_to) for b in obj.bond_descriptors])
     try:
